@@ -9,7 +9,7 @@ package main
 // "wire" cases: a real in-process casket site (`proxy / http://127.0.0.1:port`) in front of a real
 // loopback backend, raw HTTP/1.1 on the client socket (Content-Length or chunked request bodies
 // around the 32 KiB copy buffer, chunked/flushed responses, trailers).
-// "relay" cases: see c04_relay.go; "conc" cases: see c04_conc.go.
+// "relay" cases: see c04_relay.go; "conc" cases: see c04_conc.go; "seq" cases: see c04_seq.go.
 // "key", "sjs", "replace", "match": the helper functions the model builds on.
 
 import (
@@ -76,6 +76,7 @@ type c04In struct {
 
 	Conc  *c04Conc  `json:"conc,omitempty"`  // kind conc: see c04_conc.go
 	Relay *c04Relay `json:"relay,omitempty"` // kind relay: see c04_relay.go
+	Seq   *c04Seq   `json:"seq,omitempty"`   // kind seq: see c04_seq.go
 
 	Fails         int  `json:"fails,omitempty"`
 	FailAfterRead bool `json:"fail_after_read,omitempty"`
@@ -230,6 +231,13 @@ func c04BuildVoc() {
 	c04VocAdd(c04Bodies...)
 	c04VocAdd(c04RBodies...)
 	c04VocAdd(c04Queries...)
+	for _, n := range append(append([]string{"Origin"}, c04SeqDownNames...), c04SeqUpNames...) {
+		c04VocAdd(n, textproto.CanonicalMIMEHeaderKey(n), "+"+n)
+	}
+	c04VocAdd(c04SeqVals...)
+	c04VocAdd(c04SeqOrigins...)
+	c04VocAdd(c04SeqLocations...)
+	c04VocAdd(c04SeqRePat...)
 	c04VocAdd("t1", "t2", "t3", "pre", "text/pre", "Casket", "pre=1", "http", "https", "80", "0", "1", "11", "40", "k=v", "tq=1")
 	for _, t := range c04ReqTargets {
 		c04VocAdd(t)
@@ -435,14 +443,7 @@ func c04RunProxy(in *c04In) Result {
 	}
 	trig := c04Triggers(in, req.Header) // computed before ServeHTTP, on the header map as parsed
 	fixedCl := c04RepairedClasses(in, req.Header)
-	text := "proxy / " + strings.Join(in.Targets, " ") + " {\n" + c04BlockText(in.Dirs)
-	if len(in.Targets) > 1 {
-		text += "  policy round_robin\n"
-	}
-	if in.Retry {
-		text += "  try_duration 5s\n  try_interval 1ms\n"
-	}
-	text += "}\n"
+	text := c04ProxyBlockText(in)
 	ups, err := c04Upstreams(text)
 	if err != nil || len(ups) != 1 {
 		return Result{Term: c04Trivial, Obs: fmt.Sprint("setup error: ", err, " for ", text), Class: "proxy:setup-error", Sig: "proxy:setup-error"}
@@ -968,6 +969,8 @@ func c04Run(in0 interface{}) Result {
 		return c04RunRelay(in)
 	case "retrybody":
 		return c04RunRetryBody(in)
+	case "seq":
+		return c04RunSeq(in)
 	}
 	panic("bad kind " + in.Kind)
 }
@@ -1292,9 +1295,9 @@ func c04PickInt(r *Rand, xs []int) int { return xs[r.Intn(len(xs))] }
 
 func c04Gen(r *Rand, tier string) []interface{} {
 	var out []interface{}
-	nProxy, nWire, nKey, nRepl, nMatch, nConc, nRelay, nRetry := 2600, 90, 250, 150, 200, 40, 60, 160
+	nProxy, nWire, nKey, nRepl, nMatch, nConc, nRelay, nRetry, nSeq := 2600, 90, 250, 150, 200, 40, 60, 160, 240
 	if tier == "thorough" {
-		nProxy, nWire, nKey, nRepl, nMatch, nConc, nRelay, nRetry = 26000, 900, 2500, 1500, 2000, 400, 600, 1600
+		nProxy, nWire, nKey, nRepl, nMatch, nConc, nRelay, nRetry, nSeq = 26000, 900, 2500, 1500, 2000, 400, 600, 1600, 2400
 	}
 	// helper functions: exhaustive small enumerations + random
 	for _, a := range []string{"", "/", "a", "/a", "a/", "/a/", "//", "/a//"} {
@@ -1353,6 +1356,12 @@ func c04Gen(r *Rand, tier string) []interface{} {
 		}
 	}
 	out = append(out, heavy...)
+	// sequences of requests through one parsed upstream block (own random stream: the cases above
+	// do not depend on how many of these are drawn)
+	rs := NewRand(r.U64())
+	for i := 0; i < nSeq; i++ {
+		out = append(out, c04GenSeq(rs, i))
+	}
 	var wires []*c04In
 	for i := 0; i < nWire; i++ {
 		wires = append(wires, c04GenWire(r, i))
@@ -1369,7 +1378,7 @@ func init() {
 	c04BuildVoc()
 	register(&Property{
 		ID: "C04", Imports: "V.Lib V.Gen_C04 V.C04_Model", Judge: "judge",
-		Rule: "cases = real proxy directive parser + Proxy.ServeHTTP with a scripted recording transport (every attempt of the retry loop) and a recorder client; relay: scripted backend body reader segmentations through the real copyResponse/pooledIoCopy into a recording ResponseWriter (every WriteHeader/Write/Flush call, trailers keys); conc: N parallel requests with unique body patterns through one proxy with 2-3 hosts and try_duration > 0 in a child process (GOMAXPROCS/GC pinned), first attempts failing after the body was read while other responses are relayed through the pooled buffers (barrier transport or real http.Transport + loopback backends that accept, read, drop); real casket site + loopback backend with raw HTTP/1.1 for body framing/trailers; helper functions (CanonicalMIMEHeaderKey, singleJoiningSlash, Replacer, Proxy.match). non-trivial = proxied request carrying header lines and (directives or hop-by-hop headers), wire/relay case with a body, conc case with a non-empty retried body and at least one relayed response, helper case whose output differs from its input; distinct = distinct Coq case term",
+		Rule: "cases = real proxy directive parser + Proxy.ServeHTTP with a scripted recording transport (every attempt of the retry loop) and a recorder client; relay: scripted backend body reader segmentations through the real copyResponse/pooledIoCopy into a recording ResponseWriter (every WriteHeader/Write/Flush call, trailers keys); conc: N parallel requests with unique body patterns through one proxy with 2-3 hosts and try_duration > 0 in a child process (GOMAXPROCS/GC pinned), first attempts failing after the body was read while other responses are relayed through the pooled buffers (barrier transport or real http.Transport + loopback backends that accept, read, drop); seq: 2-4 different requests (method, Host, client address, headers, body, backend response), one after the other or concurrently, through ONE parsed upstream block with header_upstream and header_downstream rules on request-dependent placeholders, each request judged against model and spec evaluated on that request alone; real casket site + loopback backend with raw HTTP/1.1 for body framing/trailers; helper functions (CanonicalMIMEHeaderKey, singleJoiningSlash, Replacer, Proxy.match). non-trivial = proxied request carrying header lines and (directives or hop-by-hop headers), wire/relay case with a body, conc case with a non-empty retried body and at least one relayed response, seq case with >= 2 requests and a header rule with a placeholder, helper case whose output differs from its input; distinct = distinct Coq case term",
 		Gen: c04Gen,
 		Decode: func(raw json.RawMessage) (interface{}, error) {
 			in := &c04In{}
